@@ -2,7 +2,10 @@ package main
 
 import (
 	"fmt"
+	"github.com/fxamacker/cbor/v2"
+	"github.com/mycoria/mycoria/peering"
 	"net/netip"
+	"strings"
 	"time"
 
 	"github.com/mycoria/mycoria/frame"
@@ -150,7 +153,7 @@ func runC10(c *Ctx) error {
 	if c.Thorough() {
 		specs = append(specs, spec{"line", 12}, spec{"random", 12}, spec{"ring", 11}, spec{"star", 9}, spec{"grid", 12})
 	}
-	for _, sp := range specs {
+	for si, sp := range specs {
 		perm := c.Rng.Perm(len(ids))
 		mids := make([]*m.Address, sp.n)
 		for i := range mids {
@@ -226,6 +229,69 @@ func runC10(c *Ctx) error {
 			c.Count("pair-delivered")
 			c.CountN("request-links", reqCross)
 			c.NonTrivial(fmt.Sprintf("mesh/%s/%d/links=%d", sp.kind, sp.n, reqCross))
+		}
+		// requests whose size makes frame + link margins meet a pooled-buffer tier exactly (and one byte
+		// less / more): they are built, forwarded and delivered like any other
+		if si%2 == 0 || c.Thorough() {
+			for _, tier := range []int{600, 1600, 5100, 9600} {
+				if tier > 1600 && !c.Thorough() && si%4 != 0 {
+					continue
+				}
+				for _, delta := range []int{-1, 0, 1} {
+					ai, bi := c.Rng.IntN(sp.n), c.Rng.IntN(sp.n)
+					if ai == bi {
+						continue
+					}
+					A, B := ms.nodes[ai], ms.nodes[bi]
+					total := tier + delta
+					// calibrate the padding so that offset + frame + overhead = total
+					var msg []byte
+					for pad := total; pad >= 0; pad-- {
+						body, _ := cbor.Marshal(map[string]string{"msg": strings.Repeat("x", pad)})
+						d, err := craftPing(pingSpec{from: A.id, dst: B.id.IP, msgType: frame.RouterPing, pingType: "pong", body: body, seqTime: nextCraftTime(), pingID: 31337})
+						if err != nil {
+							if strings.Contains(err.Error(), "just built") {
+								c.Violate(fmt.Sprintf("a frame that was built cannot be handed out although it fits its buffer (%v)", err), "sized-build", map[string]any{"mesh": label, "total": total})
+								break
+							}
+							continue
+						}
+						if peering.FrameOffset+len(d)+peering.FrameOverhead == total {
+							msg = c08Body2(d)
+							break
+						}
+						if peering.FrameOffset+len(d)+peering.FrameOverhead < total-4 {
+							break
+						}
+					}
+					if msg == nil {
+						continue
+					}
+					f, err := A.builder.NewFrameV1(A.id.IP, B.id.IP, frame.RouterPing, nil, msg, nil)
+					if err != nil {
+						c.Violate(fmt.Sprintf("a request of %d bytes (with link margins) cannot be built: %v", total, err), "sized-build", map[string]any{"mesh": label, "total": total})
+						continue
+					}
+					f.SetTTL(0)
+					f.SetSequenceTime(nextCraftTime())
+					_ = f.SignRaw(A.id.PrivateKey)
+					f.SetTTL(32)
+					ms.w.queue = nil
+					rerr := A.ro.RouteFrame(f)
+					c.Eval()
+					if rerr != nil || len(ms.w.queue) != 1 {
+						c.Violate(fmt.Sprintf("a routed request of %d bytes (with link margins) did not leave its origin (err %v, %d frames on links)", total, rerr, len(ms.w.queue)), "sized-lost-at-origin", map[string]any{"mesh": label, "total": total, "from": A.name, "to": B.name})
+						continue
+					}
+					fi := parseFrameInfo(ms.w.queue[0].data)
+					tr := ms.trackFrame(rid, fi.restID, false, label, 64)
+					if len(tr.handledBy) != 1 || tr.handledBy[0] != B {
+						c.Violate(fmt.Sprintf("a routed request of %d bytes (with link margins) was not handed to exactly the destination's handlers", total), "sized-misdelivered", map[string]any{"mesh": label, "total": total, "from": A.name, "to": B.name, "handled_by": len(tr.handledBy), "crossings": tr.crossings})
+					}
+					c.Count(fmt.Sprintf("sized-request:%d", tier))
+					c.NonTrivial(fmt.Sprintf("sized/%d%+d", tier, delta))
+				}
+			}
 		}
 		ms.w.queue = nil
 	}
